@@ -214,6 +214,11 @@ func senFeature(buf []byte) string {
 			return "plus"
 		}
 	}
+	for i := 1; i < len(buf); i++ {
+		if buf[i-1] == '/' && buf[i] == '*' {
+			return "ccomment"
+		}
+	}
 	return "none"
 }
 
@@ -359,3 +364,267 @@ func VerifC03_Chunked() {
 }
 
 func jsonNumber(s string) any { return jsonNum(s) }
+
+// ---- multi-document mode ----
+
+type multiOutcome struct {
+	name string
+	docs []any
+	err  error
+	pan  bool
+}
+
+// multiFrontEnds runs the front-ends in multi-document mode (callback,
+// channel, tokenizer without OnlyOne) and collects the delivered documents.
+func multiFrontEnds(buf []byte, chunks []int, withSEN bool) []multiOutcome {
+	cp := func() []byte { return append([]byte{}, buf...) }
+	var out []multiOutcome
+	run := func(name string, f func(add func(any)) error) {
+		o := multiOutcome{name: name}
+		o.pan = vx.Catch(func() { o.err = f(func(v any) { o.docs = append(o.docs, v) }) })
+		out = append(out, o)
+	}
+	run("oj.Parse(cb)", func(add func(any)) error {
+		_, err := (&oj.Parser{}).Parse(cp(), func(v any) bool { add(v); return false })
+		return err
+	})
+	run("oj.Parse(func)", func(add func(any)) error {
+		_, err := (&oj.Parser{}).Parse(cp(), func(v any) { add(v) })
+		return err
+	})
+	run("oj.ParseReader(cb)", func(add func(any)) error {
+		_, err := (&oj.Parser{}).ParseReader(&chunkReader{data: cp(), chunks: chunks}, func(v any) bool { add(v); return false })
+		return err
+	})
+	run("oj.Parse(chan)", func(add func(any)) error {
+		ch := make(chan any, 16)
+		_, err := (&oj.Parser{}).Parse(cp(), ch)
+		for len(ch) > 0 {
+			add(<-ch)
+		}
+		return err
+	})
+	run("oj.ParseReader(chan)", func(add func(any)) error {
+		ch := make(chan any, 16)
+		_, err := (&oj.Parser{}).ParseReader(&chunkReader{data: cp(), chunks: chunks}, ch)
+		for len(ch) > 0 {
+			add(<-ch)
+		}
+		return err
+	})
+	run("oj.Tokenize+Builder", func(add func(any)) error {
+		h := &builder{}
+		err := (&oj.Tokenizer{}).Parse(cp(), h)
+		for _, d := range h.docs {
+			add(d)
+		}
+		return err
+	})
+	run("oj.TokenizeLoad+Builder", func(add func(any)) error {
+		h := &builder{}
+		err := (&oj.Tokenizer{}).Load(&chunkReader{data: cp(), chunks: chunks}, h)
+		for _, d := range h.docs {
+			add(d)
+		}
+		return err
+	})
+	run("gen.Parse(cb)+Simplify", func(add func(any)) error {
+		_, err := (&gen.Parser{}).Parse(cp(), func(n gen.Node) bool { add(simplify(n)); return false })
+		return err
+	})
+	run("gen.ParseReader(cb)+Simplify", func(add func(any)) error {
+		_, err := (&gen.Parser{}).ParseReader(&chunkReader{data: cp(), chunks: chunks}, func(n gen.Node) bool { add(simplify(n)); return false })
+		return err
+	})
+	run("gen.Parse(chan)+Simplify", func(add func(any)) error {
+		ch := make(chan gen.Node, 16)
+		_, err := (&gen.Parser{}).Parse(cp(), ch)
+		for len(ch) > 0 {
+			add(simplify(<-ch))
+		}
+		return err
+	})
+	run("oj.Validate", func(add func(any)) error { return (&oj.Validator{}).Validate(cp()) })
+	run("oj.ValidateReader", func(add func(any)) error {
+		return (&oj.Validator{}).ValidateReader(&chunkReader{data: cp(), chunks: chunks})
+	})
+	if withSEN {
+		run("sen.Parse(cb)", func(add func(any)) error {
+			_, err := (&sen.Parser{}).Parse(cp(), func(v any) bool { add(v); return false })
+			return err
+		})
+	}
+	return out
+}
+
+// senMultiFamily: the SEN front-ends in multi-document mode.
+func senMultiFamily(buf []byte, chunks []int) []multiOutcome {
+	cp := func() []byte { return append([]byte{}, buf...) }
+	var out []multiOutcome
+	run := func(name string, f func(add func(any)) error) {
+		o := multiOutcome{name: name}
+		o.pan = vx.Catch(func() { o.err = f(func(v any) { o.docs = append(o.docs, v) }) })
+		out = append(out, o)
+	}
+	run("sen.Parse(cb)", func(add func(any)) error {
+		_, err := (&sen.Parser{}).Parse(cp(), func(v any) bool { add(v); return false })
+		return err
+	})
+	run("sen.ParseReader(cb)", func(add func(any)) error {
+		_, err := (&sen.Parser{}).ParseReader(&chunkReader{data: cp(), chunks: chunks}, func(v any) bool { add(v); return false })
+		return err
+	})
+	run("sen.ParseReader(chan)", func(add func(any)) error {
+		ch := make(chan any, 16)
+		_, err := (&sen.Parser{}).ParseReader(&chunkReader{data: cp(), chunks: chunks}, ch)
+		for len(ch) > 0 {
+			add(<-ch)
+		}
+		return err
+	})
+	run("sen.Tokenize+Builder", func(add func(any)) error {
+		h := &builder{}
+		err := (&sen.Tokenizer{}).Parse(cp(), h)
+		for _, d := range h.docs {
+			add(d)
+		}
+		return err
+	})
+	run("sen.TokenizeLoad+Builder", func(add func(any)) error {
+		h := &builder{}
+		err := (&sen.Tokenizer{}).Load(&chunkReader{data: cp(), chunks: chunks}, h)
+		for _, d := range h.docs {
+			add(d)
+		}
+		return err
+	})
+	return out
+}
+
+func sameDocs(a, b []any) bool {
+	if len(a) != len(b) {
+		return false
+	}
+	for i := range a {
+		if !vref.TreeEqual(a[i], b[i]) {
+			return false
+		}
+	}
+	return true
+}
+
+func docsHaveFloat(ds []any) bool {
+	for _, d := range ds {
+		if hasFloat(d) {
+			return true
+		}
+	}
+	return false
+}
+
+// compareMulti: every front-end agrees with the first on error-ness and, when
+// neither reports an error, on the sequence of documents delivered.
+func compareMulti(os []multiOutcome, validators bool) {
+	base := os[0]
+	vx.Assert("no-panic:"+base.name, !base.pan)
+	for _, o := range os[1:] {
+		vx.Assert("no-panic:"+o.name, !o.pan)
+		if o.pan || base.pan {
+			continue
+		}
+		if (o.err == nil) != (base.err == nil) {
+			vx.Key("feat", senFeature2(os))
+			vx.Key("bom", bomLabel(multiBuf))
+		}
+		vx.Assert("agree-err:"+o.name, (o.err == nil) == (base.err == nil))
+		if o.err != nil || base.err != nil {
+			continue
+		}
+		if len(o.name) >= 11 && o.name[:11] == "oj.Validate" {
+			continue // delivers no documents
+		}
+		if docsHaveFloat(base.docs) || docsHaveFloat(o.docs) {
+			continue // float values: C02
+		}
+		same := sameDocs(base.docs, o.docs)
+		if !same {
+			vx.Key("feat", senFeature2(os))
+		}
+		vx.Assert("agree-docs:"+o.name, same)
+	}
+}
+
+var multiBuf []byte
+
+// bomLabel labels a finding (forks: only used on paths that already disagree).
+func bomLabel(b []byte) string {
+	if len(b) < 3 {
+		return "false"
+	}
+	if b[0] != 0xEF {
+		return "false"
+	}
+	if b[1] != 0xBB {
+		return "false"
+	}
+	if b[2] != 0xBF {
+		return "false"
+	}
+	return "true"
+}
+
+func senFeature2(os []multiOutcome) string { return senFeature(multiBuf) }
+
+var c03MultiTemplates = [...]string{
+	`? ?`, `1?2`, `[?]?`, `"?""?"`, `{}?[]`, `tru? fals?`, `[1]?[2]?`, `1 2?`, `"a"?1`, `nul?null`, `1.5?2`, `{"a":1}?{"b":?}`,
+}
+
+// VerifC03_Multi: multi-document mode. Every byte string of <= N bytes and a
+// set of two/three-document skeletons with free bytes, delivered whole / byte
+// by byte / split once: callback, channel and tokenizer variants deliver the
+// same sequence of documents (or all report an error). JSON and SEN
+// front-ends are compared within their family only: concatenated documents
+// such as nullnull are two JSON documents but one SEN token.
+func VerifC03_Multi() {
+	var buf []byte
+	nt := len(c03MultiTemplates)
+	k := vx.Choose("template", nt+1)
+	if k == nt {
+		n := vx.Choose("len", vx.Param("N", 3)+1)
+		buf = make([]byte, n)
+		for i := range buf {
+			buf[i] = vx.Byte("in")
+		}
+		vx.Key("template", "free")
+	} else {
+		tmpl := c03MultiTemplates[k]
+		buf = make([]byte, len(tmpl))
+		for i := 0; i < len(tmpl); i++ {
+			if tmpl[i] == '?' {
+				buf[i] = vx.Byte("in")
+			} else {
+				buf[i] = tmpl[i]
+			}
+		}
+		vx.Key("template", tmpl)
+	}
+	mode := vx.Choose("chunking", 3)
+	var chunks []int
+	switch mode {
+	case 1:
+		chunks = chunking(len(buf), len(buf))
+	case 2:
+		if len(buf) < 2 {
+			vx.Assume(false)
+		}
+		chunks = []int{vx.Concrete(vx.IntIn("split", 1, len(buf)-1))}
+	}
+	vx.Key("chunking", mode)
+	multiBuf = buf
+	jos := multiFrontEnds(buf, chunks, false)
+	compareMulti(jos, true)
+	sos := senMultiFamily(buf, chunks)
+	compareMulti(sos, false)
+	vx.Cover("valid", !jos[0].pan && jos[0].err == nil && len(jos[0].docs) >= 2)
+	vx.Cover("invalid", !jos[0].pan && jos[0].err != nil)
+}
